@@ -13,7 +13,7 @@ use std::io::{BufRead, Write};
 
 fn main() {
     let a: Vec<String> = std::env::args().collect();
-    std::panic::set_hook(Box::new(|_| {}));
+    if std::env::var("VERIF_HARNESS_VERBOSE").is_err() { std::panic::set_hook(Box::new(|_| {})); }
     match a.get(1).map(|s| s.as_str()) {
         Some("gen") if a.len() >= 6 => {
             let (suite, tier, seed, dir) = (a[2].as_str(), a[3].as_str(), a[4].parse::<u64>().unwrap(), a[5].as_str());
@@ -27,6 +27,10 @@ fn main() {
                 "C04" => suites::c04::gen(tier, seed, &mut emit),
                 "C08" => suites::c08::gen(tier, seed, &mut emit),
                 "C06" => suites::c06::gen(tier, seed, &mut emit),
+                "C05" => suites::hist::gen_c05(tier, seed, &mut emit),
+                "WIT" => suites::hist::gen_witnesses(tier, seed, &mut emit),
+                "C10" => suites::hist::gen_c10(tier, seed, &mut emit),
+                "C11" => suites::hist::gen_c11(tier, seed, &mut emit),
                 "C18" => suites::c06::gen_c18(tier, seed, &mut emit),
                 "C07" => suites::c07::gen(tier, seed, &mut emit),
                 "C16" => suites::c16::gen(tier, seed, &mut emit),
